@@ -33,6 +33,11 @@ type c12event struct {
 	dup     bool
 	isDup   bool
 	from    int // node index of the writer
+	// observed just before the callback ran (oracle classification only)
+	before    string // the receiving node's answer for the subscriber
+	holder    string // who held the announced prefix on the receiving node
+	holderRec string // the store record of that holder at that moment
+	nodeEpoch uint64 // the receiving node's epoch (lease mode)
 }
 
 type c12watcher struct {
@@ -48,6 +53,8 @@ type c12store struct {
 	c        *sim.Ctx
 	data     map[string][]byte
 	version  int // bumped by every effective mutation
+	// prefixes that two records claimed at the same time at some point of the run
+	conflicted map[string]bool
 	watchers []*c12watcher
 	evseq    int
 	quiet    bool  // fault-free phase: no errors, crashes or watch faults
@@ -58,8 +65,8 @@ type c12store struct {
 	crashes  int
 	maxCrash int
 	// oracle hooks
-	onDeliver func(w *c12watcher, ev *c12event, before string)
-	preGet    func(w *c12watcher, ev *c12event) string
+	onDeliver func(w *c12watcher, ev *c12event)
+	preGet    func(w *c12watcher, ev *c12event)
 	onTick    func(h *c12handle)
 }
 
@@ -76,7 +83,7 @@ type c12handle struct {
 }
 
 func newC12Store(c *sim.Ctx) *c12store {
-	return &c12store{c: c, data: map[string][]byte{}}
+	return &c12store{c: c, data: map[string][]byte{}, conflicted: map[string]bool{}}
 }
 
 // plan decides the fate of one store call: fail it, crash before/after it.
@@ -172,7 +179,13 @@ func (h *c12handle) Put(ctx context.Context, key string, value []byte) error {
 	st := h.st
 	st.data[key] = append([]byte(nil), value...)
 	st.version++
-	st.c.S.Logf("store put n%d %s %s", h.slot.idx, key, c12recPrefix(value))
+	np := c12recPrefix(value)
+	for k, v := range st.data {
+		if k != key && c12recPrefix(v) == np {
+			st.conflicted[np] = true
+		}
+	}
+	st.c.S.Logf("store put n%d %s %s", h.slot.idx, key, np)
 	st.notify(h, key, value, false)
 	if ca {
 		h.die()
@@ -325,14 +338,13 @@ func (st *c12store) pump(w *c12watcher) {
 		if ev.delay > 0 {
 			s.Sleep(ev.delay)
 		}
-		before := ""
 		if st.preGet != nil {
-			before = st.preGet(w, ev)
+			st.preGet(w, ev)
 		}
 		s.Logf("deliver n%d seq=%d %s deleted=%v %s", w.h.slot.idx, ev.seq, ev.key, ev.deleted, c12recPrefix(ev.val))
 		w.cb(ev.key, ev.val, ev.deleted)
 		if st.onDeliver != nil {
-			st.onDeliver(w, ev, before)
+			st.onDeliver(w, ev)
 		}
 		if ev.dup && !w.closed {
 			d := *ev
